@@ -8,7 +8,7 @@ CHECKS = {
     "C01": (
         "differential PBT: GLRParser vs an independent Earley recogniser over the token DAG; full derivation check of enumerated trees; exhaustive short inputs per generated grammar",
         "Exploration: for every generated productive grammar (incl. cyclic, nullable, hidden-recursive; lexicons with and without overlap; LALR and SLR) every token string up to 4-5 tokens with generated layout is parsed; acceptance must equal membership decided by an independent Earley recogniser, the only exception allowed is parglare.SyntaxError, every packed alternative must be a production application and every enumerated tree a derivation of the input; parses run under a step budget.",
-        "Trusted: pv/ref_chart.py, pv/trees.py. Known finding D1 (derivations lost on grammars whose LR automaton has a goto cycle over nullable non-terminals) is excluded by signature for the 'rejects a sentence' direction only. Inputs <= 5 tokens; grammars <= 4 non-terminals.",
+        "Trusted: pv/ref_chart.py, pv/trees.py. Known finding D1 (derivations lost on grammars whose LR automaton has a goto cycle over nullable non-terminals) is excluded by signature for the 'rejects a sentence' direction only. Inputs <= 5 tokens; grammars <= 4 non-terminals; a quarter of the non-overlapping cases carry a LAYOUT rule equivalent to the default ws (two tables from one Grammar object).",
         "DESIGN.md section 6/C01"),
     "C02": (
         "differential PBT: set of trees expanded from the GLR forest vs exhaustive reference derivation enumeration on the token DAG",
@@ -23,7 +23,7 @@ CHECKS = {
     "C04": (
         "differential PBT: LR parser under all 8 option combinations vs Earley recogniser/derivation enumerator; LR-vs-GLR tree comparison on deterministic tables",
         "Exploration: for every generated grammar (random, tiny exhaustive, nullable-chain and refused-merge families, overlapping lexicon) all 8 combinations of prefer_shifts x prefer_shifts_over_empty x {LALR,SLR} that construct are run on every token string up to 3-5 tokens: accepted inputs must be sentences and the built tree a derivation; for deterministic tables (no strategy, single-action cells) every sentence must be accepted, have exactly one reference derivation, and GLR must return exactly that one tree.",
-        "Trusted: pv/ref_chart.py. Exactness only asserted on the non-overlapping lexicon. LR parsers that do not terminate on cyclic grammars are counted and skipped (C04 claims nothing about termination). Generator health gate: deterministic-class share of constructed parsers must stay >= 10%.",
+        "Trusted: pv/ref_chart.py. Exactness only asserted on the non-overlapping lexicon. LR parsers that do not terminate on cyclic grammars are counted and skipped (C04 claims nothing about termination). Generator health gate: deterministic-class share of constructed parsers must stay >= 10%. A quarter of the non-overlapping cases carry a LAYOUT rule equivalent to the default ws.",
         "DESIGN.md section 6/C04"),
     "C06": (
         "differential PBT: LR (no strategy) and GLR on generated operator tables vs a precedence-climbing reference; metamorphic PBT: adding priorities to deterministic LALR(1) grammars is neutral",
@@ -37,7 +37,7 @@ CHECKS = {
         "DESIGN.md section 6/C18"),
     "C07": (
         "differential PBT: tokens chosen by LR (disambiguation on) and pursued by GLR (off) vs an executable statement of the documented lexical-disambiguation rules, over generated terminal sets and expected-set groupings",
-        "Exploration: generated sets of 2-6 terminals (string, regex, custom recognizers with both signatures; priorities; prefer; nofinish; optional KEYWORD; ignore_case) grouped into 1-3 selector states with different expected sets, plus every pair of pool terminals; for 27 probe texts per state LR must pick exactly the token the documented order picks (priority, string/keyword over others, longest, prefer), raise DisambiguationError with exactly the remaining tokens, or SyntaxError at the token position; GLR must pursue exactly the matching expected terminals of the highest matching priority, GLR with lexical_disambiguation=True exactly the disambiguated ones; every parser is also built with a pass-through custom_token_recognition hook (documented as 'no change'), which must not change any outcome.",
+        "Exploration: generated sets of 2-6 terminals (string, regex, custom recognizers with both signatures; priorities; prefer; nofinish; optional KEYWORD; ignore_case) grouped into 1-3 selector states with different expected sets, plus every pair of pool terminals; for 27 probe texts per state LR must pick exactly the token the documented order picks (priority, string/keyword over others, longest, prefer), raise DisambiguationError with exactly the remaining tokens, or SyntaxError at the token position; GLR must pursue exactly the matching expected terminals of the highest matching priority, GLR with lexical_disambiguation=True exactly the disambiguated ones; probe texts also follow the selector after a blank (where keywords can match) and in other case; every parser is also built with a pass-through custom_token_recognition hook (documented as 'no change'), which must not change any outcome.",
         "Trusted: the rule model in pv/props/c07.py (docs/disambiguation.md). Explicit nofinish on a string terminal is modelled as losing the 'most specific' privilege; positions where such a string competes with another string are skipped and counted; explicit finish marks on non-string terminals are not generated.",
         "DESIGN.md section 6/C07"),
     "C08": (
@@ -48,7 +48,7 @@ CHECKS = {
     "C11": (
         "PBT over generated corruptions (junk insertion into every short token string, generated character strings) with default and two progress-guaranteeing custom recovery strategies; oracles: deterministic step budget, span discipline, derivation check of the recovered tree against the reference recogniser, per-character coverage",
         "Exploration: for generated deterministic-class grammars (LR), arbitrary generated grammars (GLR), nullable-chain grammars and the prioritised expression grammar, every token string up to 3-4 tokens with one or two junk tokens inserted plus generated strings up to 14 characters is parsed with error_recovery=True, a skip-to-next-line strategy and an inject-one-expected-token-per-position strategy: parse must finish within the step budget with a result + parser.errors or a raised SyntaxError; spans must be in bounds, start<=end, ordered and disjoint; with the default strategy every returned tree (LR tree, first 30 forest trees) must be a derivation whose leaves are input slices in increasing order and, for LR, every non-layout character must lie in exactly one leaf or one span; sentences must give no error and the non-recovering parser's result.",
-        "Trusted: pv/ref_chart.py. LR is exercised on tables that are deterministic without strategies and on the statically prioritised expression grammar. Known finding D18 (GLR heads at different positions share one error span) is tolerated only for the ordering/overlap clause in parses where the strategy was observed to be invoked for one error on heads at different positions, and not at all on the deterministic d18-pinned-corpus (7694 corrupted sentences of grammars that keep several heads alive at an error; D18 does not show there on the unchanged tree). Known finding D1 (GLR rejects a sentence) is inherited by the recovering GLR parser and tolerated by D1's signature plus 'the same parser without recovery rejects it too'.",
+        "Trusted: pv/ref_chart.py. LR is exercised on tables that are deterministic without strategies and on the statically prioritised expression grammar. Known finding D18 (GLR heads at different positions share one error span) is tolerated only for the ordering/overlap clause in parses where the strategy was observed to be invoked for one error on heads at different positions, and not at all on the deterministic d18-pinned-corpus (7694 corrupted sentences of grammars that keep several heads alive at an error; D18 does not show there on the unchanged tree). Sub-check recovery-vs-plain-differential (overlapping terminals; LAYOUT rules with nested comments and with word-only comments) needs no reference: an input accepted without recovery gives the same result and no error with it, an input rejected without recovery never returns with an empty error list. Known finding D1 (GLR rejects a sentence) is inherited by the recovering GLR parser and tolerated by D1's signature plus 'the same parser without recovery rejects it too'.",
         "DESIGN.md section 6/C11"),
     "C12": (
         "model-based PBT over generated histories on one grammar directory (builds with varying options, edits of root / import / second-level import / error-example file, touches with a logical clock, pglr compile, deletion, truncation to generated byte prefixes and injected crashes during the write of the table cache .pgc and of the compiled error hints .pgec) compared with builds from pristine copies without caches; fault enumeration over byte prefixes of reference caches; save/load round-trip PBT with a lock-step walk of both automata",
@@ -58,7 +58,7 @@ CHECKS = {
     "C13": (
         "differential PBT: sugared grammar vs (a) parglare on an own plain-BNF expansion following the documented equivalences and (b) reference derivations of the expansion evaluated by the documented meaning; metamorphic greedy-vs-non-greedy family with recorded behaviour on an exhaustive corpus",
         "Exploration: generated rules combining terminals/rules with ? * + , separators (terminal or rule), nested groups and repeated groups, plus the documentation's examples; on every token string up to 4-5 tokens LR must construct iff the expansion does and return the same results/rejection positions, GLR must give the same result sets, tree counts and helper-name-abstracted trees as the expansion, and the sugared language/results must equal the reference derivations of the expansion evaluated as lists / [] / None with separators dropped and groups as anonymous rules. Greedy family (sequences of 2-3 repetitions with ! marks): no non-sentence of the non-greedy form is accepted, every returned tree is a derivation of it, all-but-last-greedy sequences must not return several trees.",
-        "Trusted: expander/evaluator in pv/props/c13.py. Known findings: D15 (greedy implemented as static shift preference: cuts the language / non-maximal single tree) and D16 (helper shared between greedy and non-greedy uses) relax only the greedy completeness/maximality clauses; the exhaustive two-item greedy corpus is pinned to its recorded behaviour so a change of the mechanism is still reported; D1 by its signature.",
+        "Trusted: expander/evaluator in pv/props/c13.py. Known findings: D15 (greedy implemented as static shift preference: cuts the language / non-maximal single tree) and D16 (helper shared between greedy and non-greedy uses) relax only the greedy completeness/maximality clauses; the exhaustive two-item greedy corpus is pinned to its recorded behaviour so a change of the mechanism is still reported; D1 by its signature. A quarter of the cases decorate the first rule with @pass_single (which must not reach the rules generated for its groups).",
         "DESIGN.md section 6/C13"),
     "C14": (
         "metamorphic PBT (two generated layouts of the same token string must give the same parse / offending-token index) + differential PBT (ws parameter vs equivalent LAYOUT rules)",
@@ -88,7 +88,7 @@ CHECKS = {
     "C10": (
         "differential PBT: error type/position/line/column/EOF message/expected set of GLR and LR vs Earley prefix analysis; text, multi-character, list-input and overlapping lexicons",
         "Exploration: every non-sentence among all token strings up to 4-5 tokens (with junk characters, the empty input, multi-line and trailing layout, list inputs with custom recognizers) must be rejected with exactly parglare.SyntaxError at the reference position by GLR (LALR and SLR) and by deterministic LR parsers; line/column must agree with the public pos_to_line_col and a constant column base; the EOF wording, rendering without exceptions and the exact GLR expected-terminal set are checked; LR with resolved conflicts may only raise SyntaxError or a DisambiguationError located at the ambiguous tokens.",
-        "Trusted: pv/ref_chart.py Earley prefix analysis (exact because all non-terminals are productive). STOP's presence in symbols_expected is not asserted; LR's symbols_expected is not compared.",
+        "Trusted: pv/ref_chart.py Earley prefix analysis (exact because all non-terminals are productive). STOP's presence in symbols_expected is not asserted; LR's symbols_expected is not compared. The ws parameter is either the default or ' \\t' (new line not layout); list-input recognizers use both documented call signatures.",
         "DESIGN.md section 6/C10"),
     "C05": (
         "differential PBT against an own canonical-LR(1)/LALR(1) construction; exhaustive tiny-grammar enumeration + Hypothesis random grammars; sys.monitoring line budget for termination",
